@@ -357,7 +357,11 @@ impl WorldGen {
             }
             64..=71 => {
                 // the operator returns unstaked tokens for a submitted batch
-                let subs: Vec<_> = v.batches.iter().filter(|b| b.status == milky_way::staking::BatchStatus::Submitted).cloned().collect();
+                let mut subs: Vec<_> = v.batches.iter().filter(|b| b.status == milky_way::staking::BatchStatus::Submitted).cloned().collect();
+                if self.r.chance(20) {
+                    // a duplicate or stray delivery: any batch, whatever its status
+                    subs = v.batches.clone();
+                }
                 if !subs.is_empty() {
                     let b = self.r.pick(&subs).clone();
                     let t = b.next_batch_action_time.unwrap_or(0);
@@ -634,6 +638,9 @@ impl WorldGen {
             variants.push((d(b.expected_native_unstaked.map(|x| x.u128()).unwrap_or(1).max(1)), format!("unstaked {}", b.id)));
         } else {
             variants.push((d(5), format!("unstaked {}", v.pending)));
+        }
+        if let Some(b) = v.batches.iter().find(|b| b.status == milky_way::staking::BatchStatus::Received) {
+            variants.push((d(7), format!("unstaked {}", b.id)));
         }
         // time far enough for every deadline
         let t = self.w.now_ns + 40 * 86_400 * 1_000_000_000;
